@@ -45,6 +45,7 @@ ObjClauses(c) ==
   UNION {LET o == c.objs[k] IN
          (IF ~FInClosed(o.v, FZero, FOne) THEN {"objective-outside-[0,1]:" \o o.name} ELSE {})
          \cup (IF o.name = "hardness" /\ ~FSame(o.v, o.v2) THEN {"hardness-not-repeatable"} ELSE {})
+         \cup (IF o.name = "hardness-history" /\ ~FSame(o.v, o.v2) THEN {"hardness-depends-on-evaluation-history"} ELSE {})
          \cup (IF o.name = "errors-of-template" /\ ~FIsZero(o.v) THEN {"errors-of-template-not-0"} ELSE {})
          : k \in 1..Len(c.objs)}
 
